@@ -2605,7 +2605,8 @@ class x86_mn(x86_mn_base):
                 #unsigned
                 log.debug("Dib %s; Modifs: %s", dib, m.modifs)
                 if dib in [u08, s08, u16, s16, u32, s32]:
-                    if self.admode !=u32:
+                    # the displacement of call / jcc follows the operand size
+                    if self.opmode !=u32:
                         if dib == u32: dib = u16
                         if dib == s32: dib = s16
                     l = struct.calcsize(x86_afs.dict_size[dib])
